@@ -63,12 +63,17 @@ def classify_crash(log):
     blk = log[i:i + 6000]
     if 'FATAL:' in blk.split('\n', 1)[0] or 'vFatal' in blk.split('\n', 1)[0]:
         return 'fatal'
-    # first frame of the panicking goroutine that belongs to the repository
-    for line in blk.split('\n'):
+    # first frame of the panicking goroutine that belongs to the repository; the harness's own deferred closures that
+    # recover and re-panic (step.func1 ...) sit ABOVE the frame that really panicked and are skipped
+    lines = blk.split('\n')
+    for j, line in enumerate(lines):
         m = re.match(r'\s+(/\S+\.go):\d+', line)
         if m and '/gobeansdb/' not in m.group(1) and not m.group(1).startswith(REPO):
             continue
         if m:
+            fn = lines[j - 1] if j > 0 else ''
+            if 'zz_verif' in m.group(1) and re.search(r'\.func\d+(\.\d+)?\(', fn):
+                continue
             return 'harness' if 'zz_verif' in m.group(1) else 'store-panic'
     return 'harness'
 
@@ -81,6 +86,18 @@ def crash_verdicts(crashed, pid):
         if c.kind == 'harness' or c.culprit is None:
             raise Inconclusive('harness process died (%s): %s' % (c.kind, c[2][-1200:]))
         out.append({'sid': c.culprit, 'n': 0, 'check': '%s_StoreDied_%s' % (pid, c.kind.replace('-', '_')), 'kf': ''})
+    return out
+
+
+def died_verdicts(traces, pid):
+    """a store that called logger.Fatalf INSIDE a foreground operation of a scenario (the harness turns the exit into a
+    panic, recovers it and ends the scenario) has killed itself: a violation of the property under check"""
+    out = []
+    for sid, evs in traces.items():
+        for e in evs:
+            if e.get('l') == 1 and e.get('fatal') and e.get('a') not in ('Recovered', 'RecoveredHere'):
+                out.append({'sid': sid, 'n': e.get('n', 0), 'check': '%s_StoreDied_fatal' % pid, 'kf': ''})
+                break
     return out
 
 
